@@ -71,6 +71,7 @@ DoBurnGov ==
   \E app \in {"a1", "a2", "a9"}, as \in {"X", "Z", "W"}, from \in {"r1", "u1"} :
      /\ app = "a9" => Probe
      /\ Profile = "book" => as # "Z"
+     /\ Profile = "wasm" => from = (IF as = "W" THEN "u1" ELSE "r1")
      /\ \E amt \in {x \in {6, st.bal[from][as] + 1} : x <= 200} :
           Try("BurnGov", [app |-> app, from |-> from, asset |-> as, amt |-> amt])
 DoEmission ==
